@@ -602,7 +602,7 @@ func (em *emitter) emitAssignmentNode(node *ast.Assignment) {
 				break
 			}
 			expr := v.Expr
-			if op, ok := expr.(*ast.UnaryOperator); ok && op.Op == ast.OperatorPointer && em.typ(expr).Kind() == reflect.Struct {
+			if op, ok := expr.(*ast.UnaryOperator); ok && op.Op == ast.OperatorPointer && em.isStructIndirection(expr) {
 				expr = op.Expr
 			}
 			typ := em.typ(expr)
